@@ -1,7 +1,8 @@
 """Re-run one C09 case on the implementation and print what the property oracle says.
 usage: python -m harness.c09_replay '["isect"|"union", events1, events2]'
 (an event is [ts_us, dur_us, data, id])
-       python -m harness.c09_replay --script '<script json>'     a sequence of calls in one process (harness/c09_hist.py)"""
+       python -m harness.c09_replay --script '<script json>'     a sequence of calls in one process (harness/c09_hist.py)
+       python -m harness.c09_replay --edge <replay file>         an `edge_call` replay (harness/c09_edge.py; also: -m harness.txedge replay <file>)"""
 import json
 import sys
 
@@ -29,6 +30,9 @@ def main_script(script):
 def main():
     if sys.argv[1] == "--script":
         return main_script(json.loads(sys.argv[2]))
+    if sys.argv[1] == "--edge":             # a round-5 replay file (container kinds, typed data, faults): harness/c09_edge.py
+        from . import c09_edge
+        return c09_edge.replay_main(sys.argv[2])
     case = json.loads(sys.argv[1])
     case = tuple([case[0], [tuple(x) for x in case[1]], [tuple(x) for x in case[2]]] + case[3:])
     common.setup_impl_env()
